@@ -69,8 +69,9 @@ def hitTask (origin s : Nat) (acc : State × Bool) (t : Nat) : State × Bool :=
       let st := taskCancel st t true
       let st :=
         if (st.scopes origin).host = some t then
-          st.setScope origin (fun x => { x with pending := x.pending + 1 })
-        else st
+          (st.setScope origin (fun x => { x with pending := x.pending + 1 })).setTask t
+            (fun x => { x with nOwn := x.nOwn + 1 })
+        else st.setTask t (fun x => { x with nForeign := x.nForeign + 1 })
       (st, true)
   else (st, true)
 
@@ -192,13 +193,15 @@ def exitScope (st : State) (t s : Nat) (ev : ExcVal) : Option (State × ExitResu
   else
     let st :=
       if sc.pending > 0 then
+        let drop := fun (st : State) =>
+          st.setTask t (fun x => { x with nDropped := x.nDropped + sc.pending })
         let st :=
           match sc.parent with
           | some p =>
             if (st.scopes p).host = some t then
               st.setScope p (fun x => { x with pending := x.pending + sc.pending })
-            else st
-          | none => st
+            else drop st
+          | none => drop st
         st.setScope s (fun x => { x with pending := 0 })
       else st
     some (fin st, .passed)
